@@ -137,6 +137,29 @@ def prototype_validation(ctx, prog, rule):
                 d = strip(R.place(dl)) if dl else None
                 if d and d[0] == "binop" and d[1] in ("Ne", "Eq") and const_val(d[3]) in (0, total) and strip(d[2])[0] in ("phi", "local", "binop"):
                     dec[const_val(d[3])] = d[1]
+        if not steps:
+            # the same count spelled as [N1, N2, N3].into_iter().filter(|n| <lookup of n in the prototype>).count(): the
+            # names (not the records) are iterated, so each name counts once however often it occurs in the prototype
+            import names as nm
+            for bi in f.cfg():
+                t = f.blocks[bi]["term"]
+                if t["k"] != "switch":
+                    continue
+                dl = op_place(t["discr"])
+                d = strip(R.place(dl)) if dl else None
+                if not (d and d[0] == "binop" and d[1] in ("Ne", "Eq") and const_val(d[3]) in (0, total)):
+                    continue
+                cnt = strip(d[2])
+                while cnt[0] == "cast":
+                    cnt = strip(cnt[2])
+                if cnt[0] == "call" and cnt[1].endswith("::count") and cnt[2]:
+                    flt = strip(cnt[2][0])
+                    if flt[0] == "call" and flt[1].endswith("::filter") and len(flt[2]) == 2:
+                        arr = nm._array_consts(flt[2][0])
+                        looked = nm.lookup_names(prog, f, flt)
+                        if arr and looked and sorted(looked) == sorted(arr) and len(set(arr)) == len(arr):
+                            steps = list(arr)
+                            dec[const_val(d[3])] = d[1]
         ok = sorted(steps) == sorted(names) and set(dec) == {0, total}
         ctx.ob(rule, "all-or-nothing/%s" % short(path), ok, "%s counts presence tests of %s (each name once, +1 each) and rejects counts other than 0 and %d: tests %s, decisions %s" % (short(path), names, total, sorted(steps), dec))
         # state attribute: requires the group and Integer{0..k}
